@@ -375,7 +375,7 @@ def check_param_plumbing(chk, F, rule="T3.plumbing"):
                 if kind == "read":
                     # Some((res, _)) -> Ok(res): first tuple component
                     want = ("field", ("field", ("variant", res, "Some"), "0"), "0")
-                    okr = okr and (r[4][0] == want)
+                    okr = okr and (r[4][0] in (want, ("field", ("okval", res), "0")))
                 if not okr:
                     probs.append("table hit returns %s" % mir.fmt(r))
         if fall.get(True) != fall.get(False) or not fall.get(True):
@@ -413,7 +413,8 @@ def check_param_plumbing(chk, F, rule="T3.plumbing"):
                     probs.append("zeta LEN table consulted without checking k == zeta_tables::K")
             r = p.ret
             rs = cc.strip_casts(r)
-            if gets and isinstance(rs, tuple) and rs[0] == "deref" and rs[1][0] == "field" and rs[1][1][0] == "variant" and rs[1][1][1] == gets[-1][3]:
+            if gets and isinstance(rs, tuple) and rs[0] == "deref" and (
+                    (rs[1][0] == "field" and rs[1][1][0] == "variant" and rs[1][1][1] == gets[-1][3]) or rs[1] == ("okval", gets[-1][3])):
                 tab_paths += 1
             else:
                 formula.setdefault(flag_on, set()).add(str(mir.expand(r, p)))
